@@ -98,8 +98,8 @@ func (s *CollapsingHighestDenseStore) adjust(newMinIndex, newMaxIndex int) {
 	if newMaxIndex-newMinIndex+1 > len(s.bins) {
 		// The range of indices is too wide, buckets of lowest indices need to be collapsed.
 		newMaxIndex = newMinIndex + len(s.bins) - 1
-		if newMaxIndex <= s.minIndex {
-			// There will be only one non-empty bucket.
+		if s.IsEmpty() || newMaxIndex <= s.minIndex {
+			// There will be only one non-empty bucket (or none yet, if the store is empty).
 			s.bins = make([]float64, len(s.bins))
 			s.offset = newMinIndex
 			s.maxIndex = newMaxIndex
